@@ -1178,17 +1178,17 @@ def layout_view(arr: np.ndarray, layout: str) -> np.ndarray:
     return v
 
 
-def const_scalar(op, attrs):
+def const_scalar(op, attrs, own_attr=list):
     """A Constant written through its scalar / list attributes (or a numpy *scalar* as `value`)."""
     f_, v_ = attrs["form"], attrs["value"]
     if f_ == "float":
         return op.constant(value_float=v_)
     if f_ == "floats":
-        return op.constant(value_floats=list(v_))
+        return op.constant(value_floats=own_attr(v_))
     if f_ == "int":
         return op.constant(value_int=v_)
     if f_ == "ints":
-        return op.constant(value_ints=list(v_))
+        return op.constant(value_ints=own_attr(v_))
     return op.constant(value=DT[attrs["dtype"]](v_))
 
 
@@ -1432,7 +1432,14 @@ def realise(prog, rng: random.Random, style: str = "lazy", twins: bool = False, 
             if dims != "concrete" and not n["attrs"].get("range") == "trip":
                 drng = random.Random(f"{k}:{dims}:{len(nodes)}")
                 shp = tuple((f"d{d_}" if dims == "symbolic" else None) if drng.random() < 0.6 else d_ for d_ in shp)
-            register(k, [argument(Tensor(DT[t[0]], shp))])
+            if mutate and shp and (k + len(nodes)) % 2:
+                shp_l = list(shp)  # the shape is the caller's list, grown once the type object exists
+                tt = Tensor(DT[t[0]], shp_l)
+                shp_l.append(7)
+                R.mutations["shape-list"] = R.mutations.get("shape-list", 0) + 1
+            else:
+                tt = Tensor(DT[t[0]], shp)
+            register(k, [argument(tt)])
             return
         order = [j for j, r in enumerate(n["ins"]) if r is not None]
         if base != "eager":
@@ -1486,7 +1493,7 @@ def realise(prog, rng: random.Random, style: str = "lazy", twins: bool = False, 
         elif o == "Sub":
             outs = [op.sub(a[0], a[1])]
         elif o == "ConstScalar":
-            outs = [const_scalar(op, n["attrs"])]
+            outs = [const_scalar(op, n["attrs"], own_attr)]
         elif o == "Div":
             outs = [op.div(a[0], a[1])]
         elif o == "Gather":
